@@ -476,7 +476,7 @@ def oracle(sc, obs):
                 continue         # may have been suppressed as a duplicate question
             out.append(("C18:omitted-unheld", "query #%d (%s) omits the type-%d question for %s although no unstale answer is held"
                         % (i + 1, "QU" if b["asked"] == 1 else "QM", qtype, qname)))
-    # --- a lookup that was sent an unexpired address of its host before its deadline succeeds (D22 / D15): the lookup failed, ended
+    # --- a lookup that was sent an unexpired address of its host before its deadline succeeds (D22): the lookup failed, ended
     #     with host H, and an unexpired address record of H was handed to it (an `update` block) before it returned, in the datagram
     #     that taught it H or in a later one
     lost = None
